@@ -272,6 +272,41 @@ func ruleG3(c *Ctx, r *Report, scope map[*ssa.Function]bool, floor int) {
 					}
 					continue
 				}
+				// the same quantity up to a constant: make(T, x+1) indexed in `for i <= x`
+				{
+					var reps []ssa.Value
+					canon := func(v ssa.Value) ssa.Value {
+						for _, q := range reps {
+							if sameSSA(q, v) {
+								return q
+							}
+						}
+						reps = append(reps, v)
+						return v
+					}
+					lf, hf := linOf(L, canon, 0), linOf(bound, canon, 0)
+					if incl {
+						hf.k++
+					}
+					d := hf.add(lf, -1)
+					free := false
+					for _, co := range d.cs {
+						if co != 0 {
+							free = true
+						}
+					}
+					if !free && len(lf.cs) > 0 {
+						switch {
+						case d.k > 0:
+							r.Bad("G3", key, c.Pos(ia.Pos()), fmt.Sprintf("the counter runs %d past the length the slice was made with: index out of range", d.k))
+						case narrowWrap(c, L) != nil:
+							r.Bad("G3", key, c.Pos(ia.Pos()), fmt.Sprintf("the length is a sum computed in %d bits from a count that can be all ones (ReadExpGolomb narrowed, a full-width field): it wraps to 0 while the loop still runs, and the first index is out of range", typeBits(narrowWrap(c, L).Type())))
+						default:
+							r.OK("G3", key, c.Pos(ia.Pos()), "the loop bound and the length are the same quantity up to a constant, and the length cannot wrap")
+						}
+						continue
+					}
+				}
 				// otherwise undetermined: not an obligation of this rule (lengths related through data)
 				n--
 				seen[base] = 0
@@ -447,7 +482,11 @@ func nonZeroAt(v ssa.Value, b *ssa.BasicBlock, depth int) string {
 			if cs, ok := constSet(x.Y, 0); ok {
 				lo, _ := minMax(cs)
 				if lo > 0 && nonNegative(x.X) {
-					return "non-negative value plus a positive constant"
+					// … unless the value can fill its type: then the sum wraps to 0 (ReadExpGolomb returns an all-ones
+					// uint for 64 leading zero bits)
+					if cx := ctxOfValue(x); cx == nil || maxBits(cx, x.X, 0, map[ssa.Value]bool{}) < typeBits(x.Type()) {
+						return "non-negative value plus a positive constant that cannot wrap"
+					}
 				}
 			}
 		case token.SHL:
@@ -584,6 +623,108 @@ func hasDominatingTest(v ssa.Value, b *ssa.BasicBlock, pred func(cond ssa.Value,
 					return true
 				}
 			}
+		}
+		// the test may be on the error of a checking helper (`if err := t.checkX(); err != nil { return err }`): on the
+		// arm where the error is nil every test of the helper that leads to a definite error had the other outcome
+		if bo, ok := cond.(*ssa.BinOp); ok && (bo.Op == token.NEQ || bo.Op == token.EQL) && bo.X.Type().String() == "error" {
+			if k, isC := bo.Y.(*ssa.Const); isC && k.Value == nil && (bo.Op == token.EQL) == truth {
+				if call, ok := bo.X.(*ssa.Call); ok {
+					for _, fact := range errorHelperFacts(call) {
+						activeSubst = fact.subst
+						hit := pred(fact.cond, fact.truth)
+						activeSubst = nil
+						if hit {
+							return true
+						}
+					}
+				}
+			}
+		}
+	}
+	return false
+}
+
+type helperFact struct {
+	cond  ssa.Value
+	truth bool
+	subst map[ssa.Value]ssa.Value
+}
+
+// errorHelperFacts: call is a static call of a repository function with the single result error. For every branch of
+// the helper one arm of which always returns a definitely non-nil error (fmt.Errorf, errors.New, a made interface)
+// and whose block dominates every `return nil` of the helper: on return with a nil error the condition had the
+// outcome of the other arm. Parameters stand for the call's arguments.
+func errorHelperFacts(call *ssa.Call) []helperFact {
+	h := call.Call.StaticCallee()
+	if h == nil || len(h.Blocks) == 0 || h.Signature.Results().Len() != 1 || len(call.Call.Args) != len(h.Params) {
+		return nil
+	}
+	if h.Signature.Results().At(0).Type().String() != "error" {
+		return nil
+	}
+	var nilRets []*ssa.BasicBlock
+	for _, b := range h.Blocks {
+		if ret, ok := b.Instrs[len(b.Instrs)-1].(*ssa.Return); ok && len(ret.Results) == 1 {
+			if k, isC := ret.Results[0].(*ssa.Const); isC && k.Value == nil {
+				nilRets = append(nilRets, b)
+			} else if !definiteError(ret.Results[0]) {
+				return nil // an error of unknown nil-ness is returned: no facts
+			}
+		}
+	}
+	if len(nilRets) == 0 {
+		return nil
+	}
+	var rejects func(b *ssa.BasicBlock, d int) bool
+	rejects = func(b *ssa.BasicBlock, d int) bool {
+		if d > 6 || len(b.Instrs) == 0 {
+			return false
+		}
+		switch x := b.Instrs[len(b.Instrs)-1].(type) {
+		case *ssa.Return:
+			return len(x.Results) == 1 && definiteError(x.Results[0])
+		case *ssa.Jump:
+			return rejects(b.Succs[0], d+1)
+		}
+		return false
+	}
+	subst := map[ssa.Value]ssa.Value{}
+	for i, p := range h.Params {
+		subst[p] = call.Call.Args[i]
+	}
+	var out []helperFact
+	for _, b := range h.Blocks {
+		ifi, ok := b.Instrs[len(b.Instrs)-1].(*ssa.If)
+		if !ok {
+			continue
+		}
+		dom := true
+		for _, nr := range nilRets {
+			if !b.Dominates(nr) {
+				dom = false
+			}
+		}
+		if !dom {
+			continue
+		}
+		r0, r1 := rejects(b.Succs[0], 0), rejects(b.Succs[1], 0)
+		if r0 == r1 {
+			continue
+		}
+		out = append(out, helperFact{ifi.Cond, r1, subst})
+	}
+	return out
+}
+
+// definiteError: a value of type error that is certainly not nil.
+func definiteError(v ssa.Value) bool {
+	switch x := v.(type) {
+	case *ssa.MakeInterface:
+		return true
+	case *ssa.Call:
+		if sc := x.Call.StaticCallee(); sc != nil && sc.Pkg != nil {
+			p := sc.Pkg.Pkg.Path()
+			return p == "fmt" && sc.Name() == "Errorf" || p == "errors" && sc.Name() == "New"
 		}
 	}
 	return false
